@@ -245,7 +245,7 @@ func LongTailInputs() []Input {
 // nested openers) x closers (right form, wrong form, missing, every proper
 // prefix of either closer, closer twice), at file level, in a template, in a
 // block and as an expression.
-func LiteralHazards() []Input {
+func LiteralHazards(thorough bool) []Input {
 	opens := []string{"{literal}", "{{literal}}", "{literal }", "{{literal }}", "{literal", "{{literal}", "{{literal", "{literal}}", "{ literal}", "{literal/}", "{{literal/}}"}
 	closers := []string{"{/literal}", "{{/literal}}"}
 	bodies := []string{"", "x", "{", "}", "{{", "}}", "{}", "/", "\n", "é", "\xff", "{$x}", "{/literal", "/literal}", "literal}}", "{/litera", "{{/literal", "{/literal}}", "{{/literal}",
@@ -268,8 +268,10 @@ func LiteralHazards() []Input {
 					continue
 				}
 				seen[s] = true
-				out = append(out, FileInput("literal/file", s), FileInput("literal/file", hdr+s+"\n{/template}\n"), FileInput("literal/file", hdr+"{if $c}"+s+"{/if}{/template}"),
-					FileInput("literal/file", hdr+s))
+				out = append(out, FileInput("literal/file", s), FileInput("literal/file", hdr+s+"\n{/template}\n"))
+				if thorough {
+					out = append(out, FileInput("literal/file", hdr+"{if $c}"+s+"{/if}{/template}"), FileInput("literal/file", hdr+s))
+				}
 				if strings.HasPrefix(o, "{") && len(out)%5 == 0 {
 					out = append(out, ExprInput("literal/expr", strings.TrimLeft(s, "{")))
 				}
